@@ -1,11 +1,15 @@
--- imports: Generated.InterpWin
+-- imports: Generated.InterpWin Generated.InterpLag
 /-!
 Model of beyond/utils/interp.py (`Interp.__init__`, `__call__`, `_prev_idx`, `_linear`, `_lagrange`)
 and of its use in beyond/orbits/ephem.py (`Ephem.__init__`, `interp`, `frame/form` setters with `_refresh_interp`, `interpolate`).
 
 * abscissae `xs : List R`; ordinates `ys : List (List R)` — one row per abscissa (a 1-D `ys` is a table
   of rows of length 1);
-* the window arithmetic `windowRaw` is *translated from the source* (Generated/InterpWin*.lean);
+* the window arithmetic `windowRaw` is *translated from the source* (Generated/InterpWin*.lean); so are the guard
+  `lagrangeRefuses`, the Lagrange formula `lagrangeFormula` (a chain of the numpy operations of Model/NpArr), the
+  slice bounds `linearSlice` and the formula `linearFormula` of `_linear`, and the range test `callRefuses` of
+  `__call__` (Generated/InterpLag*.lean).  `lagWeight / lagrangeCol / lagrangeEval` below are the *specification*
+  (the textbook formula) that `C09.lagrangeFormula_eq` proves the translated formula equal to;
 * Python slicing `a[start:stop]` (negative indices, clamping) is `pySlice`;
 * errors are the exception kinds of the real code.
 -/
@@ -54,11 +58,7 @@ def lagWeight (xs : List R) (x : R) (j : Nat) : R :=
 def lagrangeCol (xs : List R) (col : List R) (x : R) : R :=
   (List.range xs.length).foldl (fun acc j => acc + lagWeight xs x j * col.getD j (0 : R)) (0 : R)
 
-/-- the columns of a table of rows -/
-def columns (ys : List (List R)) : List (List R) :=
-  (List.range (ys.headD []).length).map (fun c => ys.map (fun row => row.getD c (0 : R)))
-
-/-- `l_j @ ys` on the selected window -/
+/-- `l_j @ ys` on the selected window (specification; the executable model runs `lagrangeFormula`) -/
 def lagrangeEval (xs : List R) (ys : List (List R)) (x : R) : List R :=
   (columns ys).map (fun col => lagrangeCol xs col x)
 
@@ -70,12 +70,13 @@ def lagrangeCall (order : Int) (xs : List R) (ys : List (List R)) (x : R) : Exce
     let w := windowRaw p order ys.length
     let xw := pySlice xs w.1 w.2
     let yw := pySlice ys w.1 w.2
-    if (yw.length : Int) ≠ order then .error .value          -- "impossible to interpolate"
-    else if xw.length ≠ yw.length then .error .value         -- reshape(order, order) fails
-    else .ok (lagrangeEval xw yw x)
+    if lagrangeRefuses (yw.length : Int) order then .error .value          -- "impossible to interpolate"
+    else match lagrangeFormula order xw yw x with
+      | none => .error .value                                   -- numpy refuses a shape (reshape(order, order) …): ValueError
+      | some v => .ok v
 
 def linRow (x x0 x1 : R) : List R → List R → List R
-  | a :: y0, b :: y1 => (a + (b - a) * (x - x0) / (x1 - x0)) :: linRow x x0 x1 y0 y1
+  | a :: y0, b :: y1 => linearFormula x x0 x1 a b :: linRow x x0 x1 y0 y1
   | _, _ => []
 
 /-- `Interp._linear` -/
@@ -83,7 +84,7 @@ def linearCall (xs : List R) (ys : List (List R)) (x : R) : Except Err (List R) 
   match prevIdx xs x with
   | none => .error .index
   | some p =>
-    match pySlice xs p (p + 2), pySlice ys p (p + 2) with
+    match pySlice xs (linearSlice (p : Int)).1 (linearSlice (p : Int)).2, pySlice ys (linearSlice (p : Int)).1 (linearSlice (p : Int)).2 with
     | [x0, x1], [y0, y1] => .ok (linRow x x0 x1 y0 y1)
     | _, _ => .error .value                                   -- unpacking fails
 
@@ -96,7 +97,7 @@ def increasing : List R → Bool
 def interpCall (m : Method) (order : Option Int) (xs : List R) (ys : List (List R)) (x : R) : Except Err (List R) :=
   match xs.head?, xs.getLast? with
   | some x0, some xl =>
-    if ¬ (x0 ≤ x ∧ x ≤ xl) then .error .value
+    if callRefuses x0 xl x then .error .value
     else
       match m, order with
       | .linear, _ => linearCall xs ys x
@@ -157,3 +158,44 @@ def Eph.setOrder (e : Eph) (k : Int) : Eph := { e with order := k }
 
 /-- `ephem.method = m`: same write-through as the order -/
 def Eph.setMethod (e : Eph) (m : Method) : Eph := { e with method := m }
+
+/-! ## object identity: which replies are new objects, which are the recorded points themselves
+
+Python hands out references.  `EphH` adds to the state of an `Ephem` the identity of every recorded point
+(`ids`, parallel to `pts`) and the allocation counter `next` (every object created so far has an identity
+`< next`).  `interpolate` / `propagate` build a new `StateVector`; `ephem[i]` (and plain iteration, which the
+frame/form setters themselves rely on) hands out the recorded point itself. -/
+
+structure EphH where
+  e : Eph
+  ids : List Nat
+  next : Nat
+
+/-- `Ephem(orbits, method, order)`: the recorded points are the objects `0 … n-1` (in date order) -/
+def EphH.new (pts : List Pt) (method : Option Method) (order : Option Int) : EphH :=
+  { e := Eph.new pts method order, ids := List.range pts.length, next := pts.length }
+
+/-- `Ephem.interpolate(date)` / `Ephem.propagate(date)`: the reply is a newly allocated object -/
+def EphH.interpolate (h : EphH) (date : R) : Except Err (Nat × Pt) × EphH :=
+  match h.e.interpolate date with
+  | (.ok p, e') => (.ok (h.next, p), { h with e := e', next := h.next + 1 })
+  | (.error err, e') => (.error err, { h with e := e' })
+
+/-- `ephem[i]` with an `int` index (Python indexing, negative from the end): the recorded object itself -/
+def EphH.getitem (h : EphH) (i : Int) : Except Err (Nat × Pt) :=
+  let n : Int := h.e.pts.length
+  let j : Int := if i < 0 then i + n else i
+  if j < 0 ∨ j ≥ n then .error .index
+  else match h.ids[j.toNat]?, h.e.pts[j.toNat]? with
+    | some id, some p => .ok (id, p)
+    | _, _ => .error .index
+
+/-- the caller modifies in place (`o.form = …`, `o.frame = …`, `o[:] = …`) the object `oid` it holds: this changes
+the ephemeris iff the object is one of the recorded points — and then the array held by an interpolator that
+exists already is NOT refreshed (only the `Ephem.frame` / `Ephem.form` setters refresh it) -/
+def EphH.mutate (h : EphH) (oid : Nat) (f : Pt → Pt) : EphH :=
+  { h with e := { h.e with pts := List.zipWith (fun id p => if id = oid then f p else p) h.ids h.e.pts } }
+
+def EphH.convert (h : EphH) (conv : Pt → Pt) : EphH := { h with e := h.e.convert conv }
+def EphH.setOrder (h : EphH) (k : Int) : EphH := { h with e := h.e.setOrder k }
+def EphH.setMethod (h : EphH) (m : Method) : EphH := { h with e := h.e.setMethod m }
